@@ -74,8 +74,13 @@ def _gen_spec(rw, kind):
     return spec
 
 
+HUGE_N = [2 ** 19, 2 ** 20 - 1, 2 ** 20, 2 ** 20 + 5, 600_000]
+
+
 def _gen_n(rw):
     r = rw.random()
+    if r < 0.004:
+        return rw.choice(HUGE_N)      # block sizes at which a library might switch to another generation path
     if r < 0.55:
         return rw.choice(SPECIAL_N)
     if r < 0.85:
@@ -141,7 +146,11 @@ def generate(seed, tier):
         kind, n = per[g][cursors[g]]
         cursors[g] += 1
         ops.append([kind, g, n])
-    return {"gens": gens, "ops": ops, "initially_alive": [not c for c in created_late]}
+    sc = {"gens": gens, "ops": ops, "initially_alive": [not c for c in created_late]}
+    # same seed in a *fresh interpreter* (other hash salt): rarely in quick (a subprocess costs ~2 s), often in thorough
+    if rw.random() < (0.05 if tier == "thorough" else 0.006):
+        sc["xproc"] = rw.randrange(len(gens))
+    return sc
 
 
 # --------------------------------------------------------------------------
@@ -350,9 +359,56 @@ def execute(sc, out):
                 if not _bits_equal(cs, cat):
                     out.violate("twin_mismatch", site, f"same-seed twins fed {hist[g][:12]} differ: {_first_diff(cs, cat)}")
                 out.count("oracle_twin")
+    if sc.get("xproc") is not None and sc["xproc"] < ng:
+        _cross_process_check(sc, sc["xproc"], out)
     # kernel-level direct-form check of the cascade helper, compiled and interpreted
     _cascade_kernel_check(sc, out)
     out.summary = {"gens": [(g["kind"], g.get("twin_of")) for g in gens], "nops": len(sc["ops"])}
+
+
+_XPROC = r"""
+import sys, json, pickle
+import numpy as np
+spec = json.loads(sys.argv[1])
+from speckit import noise
+k = spec["kind"]
+if k == "white":
+    g = noise.white_noise(spec["fs"], psd=spec["psd"], seed=spec["seed"])
+elif k == "red":
+    g = noise.red_noise(spec["fs"], spec["fmin"], init_filter=spec["init"], seed=spec["seed"])
+elif k == "alpha":
+    g = noise.alpha_noise(spec["fs"], spec["fmin"], spec["fmax"], spec["alpha"], init_filter=spec["init"], seed=spec["seed"])
+else:
+    g = noise.pink_noise(spec["fs"], spec["fmin"], spec["fmax"], init_filter=spec["init"], seed=spec["seed"])
+sys.stdout.buffer.write(np.asarray(g.get_series(int(sys.argv[2])), dtype=np.float64).tobytes())
+"""
+
+
+def _cross_process_check(sc, g, out):
+    """Seed reproducibility across interpreters: the same constructor + seed in a fresh process (different string-hash
+    salt, nothing cached) must give the same samples as in this process."""
+    import json as _json
+    import os
+    import subprocess
+    import sys
+
+    spec = sc["gens"][g]
+    n = 257
+    try:
+        here = np.asarray(_build(spec).get_series(n), dtype=np.float64)
+    except Exception:
+        return
+    env = dict(os.environ, PYTHONHASHSEED=str(1000 + (sc.get("seed", 0) % 1000)))
+    p = subprocess.run([sys.executable, "-c", _XPROC, _json.dumps({k: v for k, v in spec.items() if k not in ("mode",)}), str(n)],
+                       capture_output=True, env=env, timeout=300)
+    out.count("instance_in_fresh_interpreter")
+    if p.returncode != 0:
+        out.violate("exception", spec["kind"], f"constructing the generator in a fresh interpreter failed: {p.stderr.decode(errors='replace')[-200:]}")
+        return
+    there = np.frombuffer(p.stdout, dtype=np.float64)
+    if there.shape != here.shape or there.tobytes() != here.tobytes():
+        out.violate("same_seed_differs_across_processes", spec["kind"], f"seed {spec['seed']}: {_first_diff(here, there)}")
+    out.observe(here)
 
 
 def _cascade_kernel_check(sc, out):
